@@ -34,7 +34,16 @@ fn pad_text(rng: &mut Rng, target: usize) -> String {
 pub fn script(rng: &mut Rng) -> Vec<Step> {
     let mut s = Session::new();
     let diag = rng.chance(700);
+    let odd = rng.chance(150);
+    if odd {
+        // the frames that only lifecycle oddities produce (their encoding is framing too): a
+        // request before initialize, a second initialize, requests behind shutdown
+        s.request("textDocument/hover", &fresh_uri(0), 0, 1);
+    }
     s.handshake(diag);
+    if odd {
+        s.init(!diag);
+    }
     let ndocs = rng.range(1, 2);
     let mut uris = vec![];
     for d in 0..ndocs {
@@ -92,6 +101,10 @@ pub fn script(rng: &mut Rng) -> Vec<Step> {
     }
     if rng.chance(800) {
         s.shutdown();
+        if odd {
+            s.request("textDocument/hover", &uris[0], 0, 1);
+            s.unknown_request("workspace/äöü→𝄞");
+        }
         if rng.chance(800) {
             s.exit();
         }
